@@ -42,6 +42,7 @@ MSG_CLASSES = [
     (r"^Exponent is too large", "pow-too-large", False),
     (r"^Integer overflow", "int-overflow", False),
 ]
+TYPE_CLASSES = {c for _, c, t in MSG_CLASSES if t} | {"unsupported"}
 MODEL_CLASS = {"operand-type": "type-mismatch", "arg-type": "type-mismatch", "let-type": "type-mismatch",
                "ret-type": "type-mismatch"}
 
@@ -167,7 +168,7 @@ def run(ctx):
     acc = {"base": [0, 0]}
     outcome_hist, outcome_hist_rejected = {}, {}
     verdict_dis, run_dis = [], []
-    n_outside = n_frag = n_timeout = 0
+    n_outside = n_frag = n_timeout = n_frag_accepted = 0
     first_diag_hist = {}
     base_rej, base_rej_samples = {}, []
     for (src, mut), c, r, mc, mr in zip(progs, chk, runs, mchk, mrun):
@@ -224,15 +225,21 @@ def run(ctx):
             n_frag += 1
         if mverdict == "reject":
             first_diag_hist[mdiag] = first_diag_hist.get(mdiag, 0) + 1
-        if frag and (mverdict == "accept") != accepted:
+        if (mverdict == "accept") != accepted:
             verdict_dis.append((src, mut, mverdict, mdiag, errs[:2]))
+        if frag and accepted:
+            n_frag_accepted += 1
         # ---------------- correspondence: runtime outcome class
         mcls, _ = model_run(mr)
+        if frag and mverdict == "accept" and mcls in TYPE_CLASSES:
+            # an executable instance of check_sound_fragment on the model itself
+            ctx.broken.append(dict(kind="proof", what="model accepts a fragment program whose model run is a type error "
+                                   "(contradicts check_sound_fragment: driver and proved model differ?)", src=src, outcome=mcls))
         if mcls == "timeout" or cls == "timeout":
             n_timeout += 1
         elif mcls in ("bad", "outside"):
             ctx.disagree("m8_run", {"src": src}, mr, cls)
-        elif frag and cls not in ("crash", "died", "other", "stack-limit") and mcls != cls:
+        elif cls not in ("crash", "died", "other", "stack-limit") and mcls != cls:
             if not (mcls == "unsupported"):
                 run_dis.append((src, mut, mcls, cls, msg[:120]))
     for src, mut, mverdict, mdiag, errs in verdict_dis[:10]:
@@ -284,6 +291,7 @@ def run(ctx):
     ctx.cov["base_rejected_reasons"] = base_rej
     ctx.cov["base_rejected_samples"] = base_rej_samples
     ctx.cov["in_fragment"] = n_frag
+    ctx.cov["in_fragment_and_accepted"] = n_frag_accepted
     ctx.cov["outside_model_syntax"] = n_outside
     ctx.cov["timeouts_skipped"] = n_timeout
     ctx.cov["generator_features"] = dict(sorted(feats.items()))
@@ -293,9 +301,11 @@ def run(ctx):
         "accepted = no Error-severity diagnostic (warnings such as unused variables make the CLI exit 1 but are "
         "not errors in the sense of the property)",
         "the real run is bounded by a tick limit of 40000 (non-termination is skipped)",
-        "fragment hypotheses of the theorem (Check.fullyAnnotated): first-order, binders do not reuse function/"
-        "prelude names, no `if … else` directly inside a list literal that is directly a `for` iterable "
-        "(known findings C16/any-from-checked-if, C16/error-from-checked-list), no toplevel `return`",
+        "fragment hypotheses of check_sound_fragment (Check.fullyAnnotated): first order; `let` only as a block "
+        "statement; the iterable of a `for` is a variable, a call or parenthesised (known findings "
+        "C16/any-from-checked-if, C16/error-from-checked-list for bare list literals / if / match there); a `_` case "
+        "binds no payload; distinct non-reserved function names; no toplevel `return`. Verdicts and outcome classes "
+        "are compared for ALL generated programs the model's syntax can express, inside the fragment or not",
     ]
     ctx.log("programs=%d accepted base=%s mutants accepted=%d/%d verdict_dis=%d run_dis=%d" % (
         len(progs), acc["base"], ctx.cov["mutants_accepted"], ctx.cov["mutants_total"], len(verdict_dis), len(run_dis)))
